@@ -34,6 +34,7 @@ var pageLines [nPages][]string
 func buildDoc() pdfw.Doc {
 	var d pdfw.Doc
 	d.Name = "four"
+	pageLines = [nPages][]string{} // rebuilt on every call
 	// pages differ in their dominant font size and in where a larger title line sits, so that anything the
 	// layout analysis carries over from one page of a selection to the next changes the later page's structure
 	sizes := [nPages][]float64{
@@ -193,6 +194,17 @@ func run(e *harness.Env) {
 	}
 	docBaselinePath = path
 	partA(e, path)
+	// the same document with a different physical shape per page: pages 2 and 4 have two content streams, pages 1
+	// and 3 one, nothing is compressed - state a reader keeps per page (buffers, caches) meets pages of both kinds
+	mixed := filepath.Join(dir, "four-mixed.pdf")
+	if err := os.WriteFile(mixed, pdfw.Write(buildDoc(), pdfw.Layout{PerPageFonts: true, Split: 2, SplitPages: map[int]bool{1: true, 3: true}}).Bytes, 0o644); err != nil {
+		panic(err)
+	}
+	docBaselinePath, docTag = mixed, "mixed"
+	docBaseline = map[int]string{}
+	partA(e, mixed)
+	docBaselinePath, docTag = path, ""
+	docBaseline = map[int]string{}
 	partB(e, path)
 	partC(e, dir, path, built.Bytes)
 	partD(e, path)
@@ -563,6 +575,9 @@ func partA(e *harness.Env, path string) {
 						continue
 					}
 					desc := harness.D("part", "A", "sel", selName, "opts", optSet(o), "order", order, "op", term)
+					if docTag != "" {
+						desc += " doc=" + docTag
+					}
 					if !e.Own(desc) {
 						continue
 					}
@@ -686,6 +701,16 @@ func checkTerminal(ext *tabula.Extractor, term string, pages []int, oor bool, st
 		if len(doc.Pages) != len(pages) {
 			return "document-page-count", fmt.Sprintf("Document() has %d pages, selection %v", len(doc.Pages), pages)
 		}
+		for _, t := range doc.TableOfContents() {
+			if !inSel[t.Page] {
+				return "toc-page-not-in-selection", fmt.Sprintf("Document().TableOfContents() lists %q on page %d, selection %v", t.Text, t.Page, pages)
+			}
+			for _, tok := range strings.Fields(t.Text) {
+				if p := pageOfToken(tok); p != 0 && p != t.Page {
+					return "toc-page-wrong", fmt.Sprintf("Document().TableOfContents() lists %q on page %d; it stands on page %d (selection %v)", t.Text, t.Page, p, pages)
+				}
+			}
+		}
 		for i, pg := range doc.Pages {
 			if pg.Number != pages[i] {
 				return "document-page-number", fmt.Sprintf("Document().Pages[%d].Number=%d, true source page %d (selection %v)", i, pg.Number, pages[i], pages)
@@ -728,6 +753,8 @@ func checkTerminal(ext *tabula.Extractor, term string, pages []int, oor bool, st
 }
 
 // per-page structure baseline: Pages(p).Document() rendered as element kinds + texts
+var docTag string // non-empty while part A runs on a variant of the document
+
 var (
 	docBaselinePath string
 	docBaseline     = map[int]string{}
